@@ -271,29 +271,38 @@ func linCase(c *vlib.Ctx, kind int, i int, r *vlib.Rand) {
 		// pills (ids 200..): ordinary recorded Puts by client G into the low-priority lane,
 		// retried while refused, until every blocking getter has ended
 		gd := done(&gwg)
-		var ops []porcupine.Operation
-		deadline := time.Now().Add(curWatchdog())
-		accepted := 0
-		for accepted < getters && atomic.LoadInt32(&gettersDone) < int32(getters) {
-			in := linIn{Op: lPut, Lane: lanes - 1, ID: byte(200 + accepted)}
-			t0 := now()
-			ok := q.put(in.Lane, uint64(in.ID))
-			t1 := now()
-			if len(ops) < 60 || ok {
-				ops = append(ops, porcupine.Operation{ClientId: G, Input: in, Call: t0, Output: linOut{OK: ok}, Return: t1})
-			} else {
-				// a refused put changes nothing; beyond 60 retries it is simply not recorded
+		pills := guardCall(2*curWatchdog(), func() {
+			var ops []porcupine.Operation
+			deadline := time.Now().Add(curWatchdog())
+			accepted := 0
+			for accepted < getters && atomic.LoadInt32(&gettersDone) < int32(getters) {
+				in := linIn{Op: lPut, Lane: lanes - 1, ID: byte(200 + accepted)}
+				t0 := now()
+				ok := q.put(in.Lane, uint64(in.ID))
+				t1 := now()
+				if len(ops) < 60 || ok {
+					ops = append(ops, porcupine.Operation{ClientId: G, Input: in, Call: t0, Output: linOut{OK: ok}, Return: t1})
+				} else {
+					// a refused put changes nothing; beyond 60 retries it is simply not recorded
+				}
+				if ok {
+					accepted++
+					continue
+				}
+				if time.Now().After(deadline) {
+					break
+				}
+				runtime.Gosched()
 			}
-			if ok {
-				accepted++
-				continue
-			}
-			if time.Now().After(deadline) {
-				break
-			}
-			runtime.Gosched()
+			hist[G] = ops
+		})
+		pills.rethrow()
+		if !pills.Returned {
+			atomic.AddInt32(&stallsSeen, 1)
+			c.Inconclusive(caseID, "a pill Put did not return within the watchdog; goroutine abandoned")
+			noteSectionStall(c, section, caseID)
+			return
 		}
-		hist[G] = ops
 		if !waitDone(gd) {
 			s := diagnoseStall(q, base, func() int64 { return atomic.LoadInt64(&delivered) })
 			if s.Conclusive {
